@@ -859,6 +859,11 @@ class C01(Prop):
             g.leaf()
         if rng.random() < 0.5:
             g.arr()
+        if rng.random() < 0.3:
+            # dtype mixes: integer (hence constant) tensors and integer arrays as operands
+            g.leaf(dtype=rng.choice(["i8", "i4"]), constant=None)
+            if rng.random() < 0.5:
+                g.arr(dtype="i8")
         self.motifs(rng, g, cfg)
         n_nodes = rng.randint(3, 22 * DEPTH)
         kinds = self.kinds(cfg, rng)
